@@ -44,13 +44,13 @@ pub trait Fixed: Sized {
     spec fn b(self) -> int;   // bit pattern as a mathematical integer
 }
 
-#[derive(Clone, Copy)]
+#[derive(Clone, Copy, Debug, PartialEq, Eq)]
 pub struct U96F32 { pub bits: u128 }
-#[derive(Clone, Copy)]
+#[derive(Clone, Copy, Debug, PartialEq, Eq)]
 pub struct I96F32 { pub bits: i128 }
-#[derive(Clone, Copy)]
+#[derive(Clone, Copy, Debug, PartialEq, Eq)]
 pub struct I48F16 { pub bits: i64 }
-#[derive(Clone, Copy)]
+#[derive(Clone, Copy, Debug, PartialEq, Eq)]
 pub struct U112F16 { pub bits: u128 }
 
 impl Fixed for U96F32 {
